@@ -1,6 +1,7 @@
 //! Runs case files on the real a2lfile implementation.
 //! usage: implrun <KIND>   (cases on stdin, one s-expression per line; one answer line each)
 mod c03;
+mod c08;
 mod c12;
 mod c13;
 mod c17;
@@ -28,6 +29,7 @@ fn main() {
         let case = Sx::parse(&line);
         let res = match kind.as_str() {
             "C03" => c03::run(&case),
+            "C08" => c08::run(&case),
             "CHECK" => modelops::run_check(&case),
             "MERGE" => modelops::run_merge(&case),
             "CLEANUP" => modelops::run_cleanup(&case),
